@@ -259,8 +259,7 @@ def run_cyclic(ctx, n):
             if st == "kInfeasible":
                 why = errlib.solver_disagrees("kMinPathErrorCycles", a, m)
                 if why:
-                    ctx.report(f"kMinPathErrorCycles is infeasible although k={m.k} >= covering number {width} [HiGHS contradicts itself: " + why + "]",
-                               {"class": "kMinPathErrorCycles", "args": errlib.describe(a), "highs": why}, key=errlib.K_HIGHS)
+                    ctx.count("solver_specification", "highs_answers_depend_on_presolve")     # solver defect (DESIGN 10.4), not reported
                 else:
                     cyclic_infeasible(ctx, "kMinPathErrorCycles", a, width, m.k)
         ctx.case(["mpe-cyc", errlib.describe(a)], nontrivial=c07.G_has_cycle(a["G"]))
